@@ -1,13 +1,13 @@
 (* C11 — the function translated from src/math/schmidt.rs on this run (Gen/SchmidtSrc.v) is the hand-written model. *)
-From Coq Require Import Reals NArith Bool Lia.
-From SpdVerif Require Import Model.FinSum Model.Hom Model.Schmidt Gen.SchmidtSrc Proofs.C11_len Proofs.C11_svd.
+From Coq Require Import Reals NArith Bool Lia String.
+From SpdVerif Require Import Model.FinSum Model.Hom Model.Schmidt Gen.SchmidtSrc Proofs.C11_len Proofs.C11_trace Proofs.C11_svd.
 Local Open Scope R_scope.
 
 Lemma src_accepted_eq len : src_accepted len = accepted_len len.
 Proof. unfold src_accepted, src_dim, accepted_len. apply negb_involutive. Qed.
 
 Lemma src_result_eq n sv : src_result n sv = schmidt_of_sv n sv.
-Proof. unfold src_result, schmidt_of_sv, sv_norm_squared, sv_kinv. rewrite Rplus_0_l. reflexivity. Qed.
+Proof. unfold src_result, src_kinv, schmidt_of_sv, sv_norm_squared, sv_kinv. cbv zeta. rewrite Rplus_0_l. reflexivity. Qed.
 
 Lemma src_matrix_eq n a : src_matrix n (fun k => src_mag (a k)) = mag_matrix n a.
 Proof. reflexivity. Qed.
@@ -17,8 +17,14 @@ Proof.
   unfold src_schmidt_number, schmidt_number. rewrite src_accepted_eq.
   destruct (accepted_len (N.of_nat len)); [|reflexivity].
   unfold src_dim, side_of_len. cbv zeta. rewrite src_matrix_eq.
-  destruct (svd _ _); [rewrite src_result_eq|]; reflexivity.
+  destruct (svd _ _) as [sv|]; [|reflexivity].
+  replace (src_kinv (N.to_nat (N.sqrt (N.of_nat len))) sv) with (sv_kinv (N.to_nat (N.sqrt (N.of_nat len))) sv)
+    by (unfold src_kinv, sv_kinv; rewrite Rplus_0_l; reflexivity).
+  rewrite src_result_eq. reflexivity.
 Qed.
+
+Lemma src_svd_args_pinned : src_svd_args = (false, false, "f64::EPSILON"%string, 10000%N).
+Proof. reflexivity. Qed.
 
 Theorem src_code_path :
   forall svd : nat -> (nat -> nat -> R) -> option (nat -> R),
@@ -27,12 +33,13 @@ Theorem src_code_path :
     match src_schmidt_number svd len a with
     | ErrNotSquare => forall d : nat, len <> (d * d)%nat
     | ErrSvd => exists d : nat, len = (d * d)%nat
-    | OkK k => exists d : nat, len = (d * d)%nat /\ k = schmidt_K ROps d (mag_matrix d a)
+    | OkNaN => exists d : nat, len = (d * d)%nat /\ forall i j, (i < d)%nat -> (j < d)%nat -> mag_matrix d a i j = 0
+    | OkK k => exists d : nat, len = (d * d)%nat /\ trG2 ROps d (mag_matrix d a) <> 0 /\ k = schmidt_K ROps d (mag_matrix d a)
     end.
 Proof.
   intros svd H len a. rewrite src_schmidt_number_eq.
   pose proof (schmidt_number_spec svd H len a) as S.
-  destruct (schmidt_number svd len a); [exact S|exact (proj1 S)|exact S].
+  destruct (schmidt_number svd len a); [exact S|exact (proj1 S)|exact S|exact S].
 Qed.
 
 Theorem src_setup_schmidt_number_eq svd J g : src_setup_schmidt_number svd J g = setup_schmidt_number svd J g.
@@ -46,7 +53,8 @@ Theorem setup_schmidt_number_square :
     match setup_schmidt_number svd J g with
     | ErrNotSquare => False
     | ErrSvd => svd n (mag_matrix n (tabulate J g)) = None
-    | OkK k => k = schmidt_K ROps n (mag_matrix n (tabulate J g))
+    | OkNaN => forall i j, (i < n)%nat -> (j < n)%nat -> mag_matrix n (tabulate J g) i j = 0
+    | OkK k => trG2 ROps n (mag_matrix n (tabulate J g)) <> 0 /\ k = schmidt_K ROps n (mag_matrix n (tabulate J g))
     end.
 Proof.
   intros svd H J g n Hc Hr. unfold setup_schmidt_number.
@@ -55,7 +63,8 @@ Proof.
   destruct (schmidt_number svd (n * n) (tabulate J g)).
   - exact (S n eq_refl).
   - destruct S as [_ S]. rewrite side_of_len_square in S. exact S.
-  - destruct S as (d & Hd & ->). assert (d = n) by nia. subst. reflexivity.
+  - destruct S as (d & Hd & Z). assert (d = n) by nia. subst. exact Z.
+  - destruct S as (d & Hd & NZ & ->). assert (d = n) by nia. subst. split; [exact NZ|reflexivity].
 Qed.
 
 Theorem src_setup_level :
@@ -66,7 +75,8 @@ Theorem src_setup_level :
     match src_setup_schmidt_number svd J g with
     | ErrNotSquare => False
     | ErrSvd => svd n (mag_matrix n (tabulate J g)) = None
-    | OkK k => k = schmidt_K ROps n (mag_matrix n (tabulate J g))
+    | OkNaN => forall i j, (i < n)%nat -> (j < n)%nat -> mag_matrix n (tabulate J g) i j = 0
+    | OkK k => trG2 ROps n (mag_matrix n (tabulate J g)) <> 0 /\ k = schmidt_K ROps n (mag_matrix n (tabulate J g))
     end.
 Proof.
   intros svd H J g n Hc Hr. split.
